@@ -87,6 +87,11 @@ CHECKS["C07"] = ("exploration",
    "(a) 8 tree shapes of ordinary elements (div, span, section, x-y; attributes id, data-x; text children) built directly through TreeSink calls on RcDom, with every text and attribute value ranging over all strings of length <=3 (4 thorough) over 22 symbols (& < > \" ' NBSP U+00A2 U+0080 U+FFFD U+1F600 LF ...) and all pairs of strings of length <=2; serialize(ChildrenOnly) then parse_fragment(div) must reproduce the tree exactly and the output must be valid UTF-8; memchr window sweep (0..40/70 a's with one or two specials at every position). (b) For every element of every parsed tree of a 28k-input corpus (all pairs of tree lexemes followed by special characters, raw-text / RCDATA / foreign elements named like raw-text ones, noscript x scripting flag): IncludeNode output == start tag + ChildrenOnly(Some(name)) output + end tag, and the document serialization equals R-ser, a 60-line transliteration of 'serializing HTML fragments'.",
    "String space bounded by alphabet and length; element vocabulary fixed by the property. R-ser follows html5ever in escaping < and > in attribute mode.",
    "DESIGN.md §3 C07", "E4 sweep")
+CHECKS["C19"] = ("model_checking",
+   "exhaustive enumeration of meta variants x insertion modes x chunkings, and of content-attribute strings, against a monitor + R-meta",
+   "The driver records every EncodingIndicator label returned by feed(); independently the monitored sink records every HTML-namespace meta element at the moment it is inserted and computes the expected label from its attributes (charset value, else http-equiv ~ content-type plus R-meta(content), a transliteration of the WHATWG extraction algorithm). The two sequences must be equal, the meta element must already be attached when feed returns, and the final tree must equal the tree of the same input with the triggering attribute names altered (resuming changes nothing). Jobs: 9 meta variants after each of 46 insertion-mode witnesses and each of 168 tree lexemes (document, scripting on/off, followers) and in 35 fragment contexts under every chunking with <=2 (3) cuts; plus all content strings of <=6 (7) lexemes over {charset, CHARSET, chars, SP, TAB, =, quote, apostrophe, ;, x, e-acute} (1.9e6 / 2.1e7 documents).",
+   "'Returns a label' is read as 'the extraction algorithm returns a substring' (html5ever delegates the registry lookup to the embedder). Alphabet-bounded.",
+   "DESIGN.md §3 C19", "E2 + E4")
 PENDING = {}
 def main():
     checks = []
